@@ -154,7 +154,9 @@ def _project(force, nodes, labels, opts, U, lattice, exact):
 def run_instance(inst, U, lattice):
     _BASE[0] = Fraction(inst.get("base", 0))
     try:
-        return _run_instance(inst, U, lattice)
+        rec = _run_instance(inst, U, lattice)
+        rec["far"] = 1 if inst.get("base") else 0
+        return rec
     finally:
         _BASE[0] = Fraction(0)
 
@@ -168,6 +170,12 @@ def _run_instance(inst, U, lattice):
     passed = {k: v for k, v in inst["opts"].items() if not (k in DOC_DEFAULTS and v == DOC_DEFAULTS[k] and coin.random() < 0.5)}
     f = Force(passed if passed or coin.random() < 0.5 else None)
     f.nodes(list(nodes))       # (the engine may sort the list it is given in place; keep ours in label order)
+    if inst.get("decoy") is not None:
+        # another engine, with other options, is created and configured between this engine's construction and its compute():
+        # engines share nothing
+        g = Force(inst["decoy"][0])
+        if inst["decoy"][1] is not None:
+            g.set_options(inst["decoy"][1])
     try:
         # (a far-away instance that makes the solver cycle must not stall the check for a quarter of an hour: 40 s of CPU are
         #  four orders of magnitude above the cost of a 25-label layout)
@@ -464,7 +472,12 @@ def run_siblings(rng):
     out = []
     cur = [list(l) for l in labels]
     for step in range(rng.choice([2, 3, 4])):
-        out.append(run_instance({"labels": [list(l) for l in cur], "opts": dict(opts)}, 4, True))
+        decoy = None
+        if rng.random() < 0.6:
+            decoy = [rng.choice([None, {}, {"maxPos": None}, {"maxPos": 5000, "minPos": -100, "density": 0.5, "nodeSpacing": 9,
+                                                             "algorithm": "simple", "stubWidth": 7}]),
+                     rng.choice([None, {"maxPos": None}, {"density": 1, "maxPos": 100000}, {"nodeSpacing": 11, "stubWidth": 5}])]
+        out.append(run_instance({"labels": [list(l) for l in cur], "opts": dict(opts), "decoy": decoy}, 4, True))
         nxt = [list(l) for l in cur]
         for _ in range(rng.choice([1, 1, 2])):
             k = rng.randrange(n)
